@@ -206,7 +206,7 @@ def as_yaml_reader_sees(d):
 LEAF_FIELD = {"string": "tag", "integer": "n", "float": "f", "bool": "b"}
 
 
-def build_program(schema):
+def build_program(schema, per_field=False):
     """Two steps that both receive the whole input through their `any` field, typed leaves through typed fields, and outputs echoing the input."""
     steps = [gen.plugin_step("e1", "lit", extra_input={"a": Expr(In())}), gen.plugin_step("e2", "lit", extra_input={"a": Expr(In())})]
     used = set()
@@ -217,6 +217,16 @@ def build_program(schema):
             used.add(base)
             steps[1].fields["input"][LEAF_FIELD[base]] = Expr(In(k))
     outs = {"success": {"all": Expr(In()), "e1": Expr(Ref("e1", "outputs", "success", "a")), "e2": Expr(Ref("e2", "outputs", "success"))}}
+    if per_field:
+        # the second step and a further output member refer to the fields one by one (those that are always there)
+        keys = [k for k, p in schema.props.items() if p.get("required", True) or "default" in p]
+        if keys:
+            steps[1].fields["input"]["a"] = {k: Expr(In(k)) for k in keys}
+            # (an output member inferred from a field whose type contains a reference to a shared object is refused by
+            # preparation - the inferred scope lacks the object; such fields are only handed to the step)
+            outs["success"]["fields"] = {k: Expr(In(k)) for k in keys if "'ref'" not in repr(schema.props[k]["type"])}
+            if not outs["success"]["fields"]:
+                del outs["success"]["fields"]
     return Program(steps, outs, schema)
 
 
@@ -236,7 +246,8 @@ def run(check):
         objects = {}
         props = gen_props(rng, 0, objects)
         schema = InputSchema(props, objects=objects)
-        prog = build_program(schema)
+        prog = build_program(schema, per_field=(i % 2 == 0))
+        per_keys = [k for k, p in schema.props.items() if p.get("required", True) or "default" in p] if i % 2 == 0 else None
         doc = gen_doc(rng, props, objects)
         try:
             norm = ref.normalise_input(schema, doc)
@@ -273,7 +284,8 @@ def run(check):
                     case = {"id": cid, "files": prog.files(), "scripts": scripts, "runs": [{"input": d}]}
                 else:
                     case = {"id": cid, "mode": "engine", "files": prog.files(), "scripts": scripts, "runs": [], "extra": {"engine": {"input_yaml": json.dumps(d)}}}
-                items.append((case, {"schema": i, "kind": kind, "entry": entry, "valid": valid, "expected": expected, "doc": d}))
+                items.append((case, {"schema": i, "kind": kind, "entry": entry, "valid": valid, "expected": expected, "doc": d, "per_field": per_keys if isinstance(seen_d, dict) else None,
+                                     "out_fields": [k for k in (per_keys or []) if "'ref'" not in repr(schema.props[k]["type"])]}))
     # input documents written as YAML text (block scalars, quoting, flow style): the value a string field has is the one the
     # YAML text denotes, trailing line breaks included
     ysch = InputSchema({"s": {"type": ("string", {"min": None, "max": 5})}, "t": {"type": "string", "required": False, "default": "dflt"}, "l": {"type": ("list", "string"), "required": False}})
@@ -385,8 +397,12 @@ def run(check):
         got = [(r.get("out_id"), ref.denum(r.get("data")), bool(r.get("err"))) for r in runs]
         if kind == "alone":
             alone[order[0]] = got[0]
-            if order[0] == "default-added" and got[0][0] != "success":
-                check.fail_broken("sub-workflow with a defaulted field did not run alone: %r" % (runs[0],))
+            if order[0] in ("default-added", "other-default"):
+                want = "n/a" if order[0] == "default-added" else "other"
+                notes = [(x or {}).get("note") for x in ((got[0][1] or {}).get("d") or [])] if got[0][0] == "success" else None
+                if notes != [want, want]:
+                    check.report("input@loop-item-not-normalised-by-sub-workflow-schema", "loop over $.input.items, sub-workflow input declares `note` with default %r: expected both item runs to see it, got %r" % (
+                        want, runs[0].get("data") if got[0][0] == "success" else runs[0]), {"case": case})
             continue
         for pos, v in enumerate(order):
             if v in alone and got[pos] != alone[v]:
@@ -435,11 +451,22 @@ def run(check):
         for e in ev:
             if e["kind"] == "exec-start" and e["src"] in ("e1", "e2"):
                 seen[e["src"]] = ref.denum((e.get("data") or {}).get("raw") or {}).get("a")
+        pk = m.get("per_field")
+        if pk:
+            fkeys = m.get("out_fields") or []
+            mm = ref.match({k: exp[k] for k in fkeys if k in exp}, (data or {}).get("fields") or {}) if fkeys else None
+            if mm:
+                check.report("input@normalisation:output-field:" + m["entry"], "schema %d: fields of $.input referred to one by one in the workflow output differ from the normalised document: %s" % (m["schema"], mm), {"case": case, "expected": exp, "got": data})
         for src, v in seen.items():
+            if pk and src == "e2":
+                mm = ref.match({k: exp[k] for k in pk if k in exp}, v)
+                if mm:
+                    check.report("input@normalisation:step-field:" + m["entry"], "schema %d: step e2, given the fields of $.input one by one, received something else than the normalised document: %s" % (m["schema"], mm), {"case": case, "expected": exp, "got": v})
+                continue
             mm = ref.match(exp, v)
             if mm:
                 check.report("input@normalisation:step:" + m["entry"], "schema %d: step %s received an input that differs from the normalised document: %s" % (m["schema"], src, mm), {"case": case, "expected": exp, "got": v})
-        if len(seen) == 2 and seen.get("e1") != seen.get("e2"):
+        if len(seen) == 2 and seen.get("e1") != seen.get("e2") and not pk:
             check.report("input@steps-disagree:" + m["entry"], "schema %d: the two steps saw different inputs: %r vs %r" % (m["schema"], seen.get("e1"), seen.get("e2")), {"case": case})
         check.nontrivial("%d|valid|%s" % (m["schema"], m["entry"]))
         if len(check.samples) < 3 and exp != m["doc"]:
